@@ -3213,17 +3213,43 @@ PIP_Solution_Node::solve(const PIP_Problem& pip,
           return nullptr;
         }
         else {
-          // t_node unfeasible, f_node feasible:
-          // restore cs and aps into f_node (i.e., this).
-          PPL_ASSERT(f_node == this);
-          swap(f_node->constraints_, cs);
-          swap(f_node->artificial_parameters, aps);
-          // Add f_test to constraints.
-          f_node->add_constraint(f_test, all_params);
+          // t_node unfeasible, f_node feasible.
+          // NOTE: the recursive call may have added to f_node new
+          // constraints and new artificial parameters, or it may have
+          // returned a new decision node: the saved `cs' and `aps' have
+          // to be merged with (not swapped for) what f_node now holds.
 #ifdef NOISY_PIP_TREE_STRUCTURE
           indent_and_print(std::cerr, indent_level,
                            "=== EXIT: THEN BRANCH UNFEASIBLE: SWAP BRANCHES\n");
 #endif
+          const PIP_Decision_Node* const decision_node_p
+            = dynamic_cast<PIP_Decision_Node*>(f_node);
+          if (decision_node_p != nullptr
+              && decision_node_p->false_child != nullptr) {
+            // A decision node having both children can only have its own
+            // test: store `cs', `aps' and f_test in a new parent node.
+            PIP_Tree_Node* const parent
+              = new PIP_Decision_Node(f_node->get_owner(), nullptr, f_node);
+            swap(parent->constraints_, cs);
+            swap(parent->artificial_parameters, aps);
+            parent->add_constraint(f_test, all_params);
+            return parent;
+          }
+          // a) append into `cs' the constraints of f_node;
+          for (Constraint_System::const_iterator
+                 i = f_node->constraints_.begin(),
+                 i_end = f_node->constraints_.end(); i != i_end; ++i) {
+            cs.insert(*i);
+          }
+          // b) append into `aps' the parameters of f_node;
+          aps.insert(aps.end(),
+                     f_node->artificial_parameters.begin(),
+                     f_node->artificial_parameters.end());
+          // c) swap the updated `cs' and `aps' into f_node;
+          swap(cs, f_node->constraints_);
+          swap(aps, f_node->artificial_parameters);
+          // d) add f_test to constraints.
+          f_node->add_constraint(f_test, all_params);
           return f_node;
         }
       }
